@@ -88,6 +88,7 @@ type Session struct {
 	Delay   func(dir string, p *snref.Pkt, n int) time.Duration
 	stalled bool
 	unstall chan struct{}
+	resume  chan struct{}
 	mqFail  int // the next mqFail writes of the gateway to the broker return an error
 
 	// Segment > 0: everything the broker sends arrives in two TCP segments, the second one Segment later.
@@ -120,7 +121,7 @@ func (w *World) NewSessionForClient(mqHandler func(s *Session, p *mqttref.Pkt)) 
 func (w *World) newSession(snHandler func(s *Session, p *snref.Pkt, raw []byte), mqHandler func(s *Session, p *mqttref.Pkt), externalClient bool) *Session {
 	w.mu.Lock()
 	id := len(w.sess)
-	s := &Session{W: w, ID: id, Done: make(chan struct{}), counts: map[string]int{}, unstall: make(chan struct{})}
+	s := &Session{W: w, ID: id, Done: make(chan struct{}), counts: map[string]int{}, unstall: make(chan struct{}), resume: make(chan struct{}, 1)}
 	w.sess = append(w.sess, s)
 	w.mu.Unlock()
 	s.Ctx, s.Stop = context.WithCancel(w.Ctx)
@@ -225,11 +226,27 @@ func (w *World) newSession(snHandler func(s *Session, p *snref.Pkt, raw []byte),
 			stalled := s.stalled
 			s.mu.Unlock()
 			if stalled {
-				<-s.unstall // a broker that has stopped reading
-				return
+				// a broker that has stopped reading (until ResumeBroker, if ever)
+				select {
+				case <-s.unstall:
+					return
+				case <-s.resume:
+					s.mu.Lock()
+					s.stalled = false
+					s.mu.Unlock()
+					continue
+				}
 			}
 			n, err := s.MQ.B.Read(buf)
 			if err != nil {
+				s.mu.Lock()
+				stalled = s.stalled
+				s.mu.Unlock()
+				if stalled {
+					// StallBroker interrupted the read: wait for ResumeBroker (or the end of the world)
+					s.MQ.B.SetReadDeadline(time.Time{})
+					continue
+				}
 				return
 			}
 			acc = append(acc, buf[:n]...)
@@ -336,6 +353,14 @@ func (s *Session) StallBroker(capacity int) {
 	s.mu.Unlock()
 	// wake the reader so that it notices
 	s.MQ.B.SetReadDeadline(time.Now())
+}
+
+// ResumeBroker lets a stalled broker read again (a slow broker rather than a dead one).
+func (s *Session) ResumeBroker() {
+	select {
+	case s.resume <- struct{}{}:
+	default:
+	}
 }
 
 // BrokerReset makes the gateway's reads on the MQTT connection fail with "connection reset by peer".
